@@ -292,7 +292,7 @@ static int pad_pkcs1(bn_t m, size_t *p_len, size_t m_len, size_t k_len,
 						/* Remove padding and trailing zero. */
 						*p_len -= (m_len - 1);
 						bn_mod_2b(m, m, (k_len - *p_len) * 8);
-						result = (m_len > 0 ? RLC_OK : RLC_ERR);
+						result = (m_len > 0 && *p_len >= RSA_PAD_LEN ? RLC_OK : RLC_ERR);
 					}
 				}
 				break;
